@@ -466,3 +466,33 @@ func BackRankFamily(emit func(p *ref.Pos)) {
 		}
 	}
 }
+
+// KXvKHeavy enumerates K+Q v K and K+R v K with the lone king on the edge of the board (every
+// checkmate of these endings has the king on the edge), the lone king's side to move. all=false
+// keeps the lone king on the a-file and first rank only.
+func KXvKHeavy(all bool, emit func(p *ref.Pos)) {
+	for _, x := range []int8{ref.Q, ref.R} {
+		for bk := 0; bk < 64; bk++ {
+			f, r := bk%8, bk/8
+			edge := f == 0 || r == 0
+			if all {
+				edge = edge || f == 7 || r == 7
+			}
+			if !edge {
+				continue
+			}
+			for wk := 0; wk < 64; wk++ {
+				for xs := 0; xs < 64; xs++ {
+					if wk == bk || xs == bk || xs == wk {
+						continue
+					}
+					p := &ref.Pos{EP: -1, White: false}
+					p.Sq[wk], p.Sq[bk], p.Sq[xs] = ref.K, -ref.K, x
+					if Valid(p) {
+						emit(p)
+					}
+				}
+			}
+		}
+	}
+}
